@@ -1,6 +1,6 @@
 """Shared rule builders for the LieTensor properties C01-C05."""
 import ast, re, copy
-from ..core import RuleResult, Finding, AnalysisError, dotted, src, norm_construct
+from ..core import RuleResult, Finding, AnalysisError, dotted, src, norm_construct, guarded, guarded_list
 from ..expr import inline_straight, returns_of, dump, rv
 from .. import masks, layout, paths
 
@@ -11,6 +11,7 @@ GROUPS = layout.GROUPS
 ALG = layout.ALG
 
 
+@guarded_list
 def rule_masks(repo, rid_mp, rid_gd, targets, floor, exceptions=None):
     """targets: list of (module, qualname).  exceptions: {(qualname, root substring): reason} for GD."""
     exceptions = exceptions or {}
@@ -69,6 +70,7 @@ def rule_masks(repo, rid_mp, rid_gd, targets, floor, exceptions=None):
     return [mp, gd]
 
 
+@guarded
 def rule_layout(repo, rid, entries, floor):
     """entries: list of (class name, [param layout names], result layout name or ('g', n))"""
     res = RuleResult(rid, 'layout typing of the forward bodies against the component layout table extracted from the LieType '
@@ -99,6 +101,7 @@ CTORS = {'torch.zeros', 'torch.ones', 'torch.eye', 'torch.tensor', 'torch.empty'
          'torch.linspace'}
 
 
+@guarded
 def rule_dtype(repo, rid, targets, floor):
     """every tensor constructed in the target functions takes dtype and device from an input tensor"""
     res = RuleResult(rid, 'every tensor constructed in these functions takes both dtype and device from an input tensor (or is a *_like): the '
@@ -140,6 +143,7 @@ def lietensor_ctor(e):
     return None
 
 
+@guarded
 def rule_dispatch(repo, rid, method, families, op_of, ltype_of, floor, wrapper=None):
     """Type.method returns LieTensor(<op>.apply(...), ltype=<expected>) on its main path.
     families: list of type-class prefixes (e.g. 'so3'); op_of/ltype_of: prefix -> expected names."""
